@@ -56,6 +56,17 @@ func Shape(shape, ig, tbl string, srcs ...world.SrcRef) *world.Decl {
 	case "R1": // transaction + receipt fields; plan blocks+receipts
 		d.Fields = []world.Field{{Name: "tx_hash", Column: "tx_hash"}, {Name: "tx_input", Column: "tx_input"}, {Name: "tx_status", Column: "tx_status"},
 			{Name: "tx_gas_used", Column: "tx_gas_used"}, {Name: "block_hash", Column: "block_hash"}}
+	case "L5": // log event restricted to two contracts by a multi-argument eq filter on the log address (pushed down to eth_getLogs)
+		d.Event = "Transfer"
+		d.Inputs = []world.Input{
+			{Name: "from", Type: "address", Indexed: true, Column: "f"},
+			{Name: "to", Type: "address", Indexed: true, Column: "t"},
+			{Name: "value", Type: "uint256", Column: "v"},
+		}
+		d.Fields = []world.Field{{Name: "log_addr", Column: "log_addr", Op: "eq", Arg: []string{fmt.Sprintf("0x%x", addrA), fmt.Sprintf("0x%x", addrB)}}}
+	case "TR2": // trace indexing that also stores receipt fields; plan receipts+traces
+		d.Fields = []world.Field{{Name: "trace_action_from", Column: "tfrom"}, {Name: "trace_action_to", Column: "tto"},
+			{Name: "trace_action_value", Column: "tval"}, {Name: "tx_status", Column: "tx_status"}, {Name: "tx_gas_used", Column: "tx_gas_used"}, {Name: "tx_hash", Column: "tx_hash"}}
 	case "TR1": // trace indexing; plan blocks+traces
 		d.Fields = []world.Field{{Name: "trace_action_from", Column: "tfrom"}, {Name: "trace_action_to", Column: "tto"},
 			{Name: "trace_action_value", Column: "tval"}, {Name: "trace_action_call_type", Column: "tct"}, {Name: "tx_hash", Column: "tx_hash"}}
@@ -66,6 +77,9 @@ func Shape(shape, ig, tbl string, srcs ...world.SrcRef) *world.Decl {
 }
 
 var Shapes = []string{"L1", "L2", "L3", "L4", "T1", "R1", "TR1"}
+
+// ExtraShapes run on a reduced job product (see c01Jobs)
+var ExtraShapes = []string{"L5", "TR2"}
 
 // decoys: declarations whose logs must NOT produce rows for the shapes above
 var (
